@@ -362,10 +362,13 @@ func TestCheck(t *testing.T) {
 	})
 
 	r.Phase(fmt.Sprintf("W: %d conventional special texts (empty, null, nil, 0000-00-00, now, today, ...) x rules x limits through every entry point", len(ref.ConventionalTexts)), func() {
-		for _, lim := range []int{0, 15, 3, math.MaxInt, math.MaxInt - 1, math.MaxInt - 63, 1 << 31, 1 << 32} {
+		for _, lim := range []int{0, 15, 3, math.MaxInt, math.MaxInt - 1, math.MaxInt - 63, 1 << 31, 1 << 32, -1, math.MinInt} { // a negative limit is non-zero: every text is longer
 			restore := setLimit(lim)
 			r.Serial(func(w *vkit.W) {
 				for _, text := range ref.ConventionalTexts {
+					if lim < 0 && text == "" {
+						continue // which of the two reasons an empty text is refused for under a negative limit is not specified
+					}
 					for _, rule := range rules {
 						judge(Case{Text: vkit.B(text), Rule: rule, Limit: lim}, w)
 						w.EvalRandom(vkit.Hash64("W", text, strconv.Itoa(rule), strconv.Itoa(lim)), true)
